@@ -38,6 +38,20 @@ fn main() {
                 i += 1;
                 replay = Some(PathBuf::from(args.get(i).unwrap_or_else(|| usage())));
             }
+            "--gen-corpus" => {
+                // write the seed corpus of the byte-level JSON fuzz target into a directory
+                i += 1;
+                let dir = PathBuf::from(args.get(i).unwrap_or_else(|| usage()));
+                pyo3::prepare_freethreaded_python();
+                install_panic_hook();
+                std::fs::create_dir_all(&dir).expect("corpus dir");
+                let seeds = rlverif::props::c20::seed_corpus();
+                for (k, s) in seeds.iter().enumerate() {
+                    std::fs::write(dir.join(format!("seed-{:03}", k)), s).expect("write seed");
+                }
+                println!("{} seed documents written to {}", seeds.len(), dir.display());
+                std::process::exit(0);
+            }
             "--from-bytes" => {
                 // debugging aid: decode a fuzzer input into the property's case and judge it
                 i += 1;
